@@ -220,7 +220,7 @@ HELPERS = {
     'C': ALT(S('a'), S('b')),
 }
 
-LEAVES = [S('a'), S('ab'), S(''), RX('a+'), RX('a*'), RX('[ab]'), CI('a'), SEQ(),
+LEAVES = [S('a'), S('ab'), S(''), RX('a+'), RX('a*'), RX('[ab]'), CI('a'), RX('a'), SEQ(),
           REF('A'), REF('B'), FAIL, PY('None'), BT(1)]
 
 UNARY = [
